@@ -3,6 +3,7 @@ import ast
 
 from .. import astutil as A
 from .. import paths as P
+from ..loader import methods
 from ..selftest.runner import M, TW, V
 from . import common as K
 
@@ -45,6 +46,8 @@ RULES = {
     "C15-d": "ROUTING: IncludeExcludeTree.get store table; GroupBy.fill appends the value to exactly one group keyed by the selected sub-context",
     "C15-e": "ORDER-FREE: lists of keys are never used positionally while the include/exclude tree is built",
     "C15-f": "PROVENANCE: includes/excludes are not crossed in the tree construction; default flips only at a listed prefix",
+    "C15-g": "TYPESTATE/subclasses: a Selector subclass whose constructor does not run Selector.__init__ binds every attribute "
+             "that the methods it inherits read (otherwise repr/==/composition with Not, lists and tuples raise AttributeError)",
 }
 SEL = "lena.flow.selectors"
 IET = "lena.context.include_exclude_tree"
@@ -1251,7 +1254,52 @@ def _tests_empty_tail(test, outcome):
     return None
 
 
+def check_subclass_typestate(ctx):
+    """Or/And/Selector accept ready Selector objects as items and call repr() on them while they are built; Not and
+    Selector wrap any callable.  A subclass of Selector that does not run the base constructor must therefore itself bind
+    whatever the methods it inherits read through self."""
+    res = ctx.res
+    base = res.class_target(SEL, "Selector")
+    bms = methods(base.node)
+    n = 0
+    for mod, cls in ctx.tree.classes():
+        if mod.name != SEL or cls is base.node:
+            continue
+        t = res.class_target(SEL, cls.name)
+        if not any(c.name == SEL + ".Selector" for c in res.mro(t)[1:]):
+            continue
+        n += 1
+        ms = methods(cls)
+        init = ms.get("__init__")
+        if init is None:
+            ctx.ok("C15-g", cls, "%s inherits Selector.__init__" % cls.name)
+            continue
+        calls_super = any(isinstance(c, ast.Call) and isinstance(c.func, ast.Attribute) and c.func.attr == "__init__"
+                          and isinstance(c.func.value, ast.Call) and A.call_name(c.func.value) == "super" for c in A.walk_local(init))
+        if calls_super:
+            ctx.ok("C15-g", init, "%s.__init__ runs the base constructor" % cls.name)
+            continue
+        bound = {tg.attr for st in A.walk_local(init) for tg in A.assigned_targets(st) if isinstance(st, (ast.Assign, ast.AugAssign))
+                 and A.is_self_attr(tg)}
+        missing = {}
+        for name, fn in bms.items():
+            if name in ms or name == "__init__":
+                continue
+            for x in A.walk_local(fn):
+                if isinstance(x, ast.Attribute) and isinstance(x.ctx, ast.Load) and A.is_self_attr(x) and x.attr not in bound \
+                        and x.attr not in bms and x.attr not in ms:
+                    missing.setdefault(name, set()).add(x.attr)
+        ctx.check("C15-g", not missing, init, "%s.__init__ does not run Selector.__init__ and leaves unbound what the inherited %s read: "
+                  "%s -- repr() of such a selector, comparing it, and building Not(...), Selector([...]) or Selector((...)) around it "
+                  "(they call repr on their items) raise AttributeError" % (
+                      cls.name, ", ".join("Selector.%s" % m2 for m2 in sorted(missing)),
+                      "; ".join("%s: %s" % (m2, ", ".join(sorted(a))) for m2, a in sorted(missing.items()))),
+                  detail="%s binds what its inherited methods read" % cls.name, construct="subclass-unbound:%s" % cls.name)
+    ctx.instances_floor("C15-g", n, 4, "subclasses of Selector")
+
+
 def check(ctx):
+    check_subclass_typestate(ctx)
     check_dispatch(ctx)
     check_containment(ctx)
     check_filter(ctx)
@@ -1266,6 +1314,7 @@ IETF = "lena/context/include_exclude_tree.py"
 GBF = "lena/flow/group_by.py"
 FLT = "lena/flow/filter.py"
 VARIANTS = [
+    M("selectcontext-inherits-repr", SELF, "    def __repr__(self):\n        try:\n            predicate_repr = self._predicate.__name__", "    def _repr_unused(self):\n        try:\n            predicate_repr = self._predicate.__name__", ["C15-g"]),
     M("lookup-scalar-typeerror", "lena/context/functions.py", "        elif has_default:\n            return default\n        else:\n            raise LenaKeyError(\n                \"nested dict {} not found in {}\".format(key, d)", "        elif has_default:\n            return default\n        elif key in d:\n            raise LenaTypeError(\n                \"need a dictionary, {} provided\".format(d[key])\n            )\n        else:\n            raise LenaKeyError(\n                \"nested dict {} not found in {}\".format(key, d)", ["C15-b"]),
     # dispatch
     M("callable-before-class", SELF, "        if inspect.isclass(selector):\n            self._selector = lambda val: isinstance(\n                lena.flow.get_data(val), selector\n            )\n            try:\n                self._selector_repr = selector.__name__\n            except AttributeError:\n                # todo: add a test where that can happen.\n                pass\n            self._orig_class = selector\n        elif callable(selector):",
